@@ -68,9 +68,11 @@ pub const IDS: [(&str, &str); 29] = [
     ("fantom", "7"),
     ("fantom ", " 7"),
 ];
-pub const SRCS: [&str; 4] = [
+pub const SRCS: [&str; 5] = [
     "0x4EFE356BEDeCC817cb89B4E9b796dB8bC188DC59",
-    // the same address in lower case directly after it: the "next source" deviation hits it
+    // the same address followed by a NUL (identical once a serialisation pads strings to four bytes) and
+    // the same address in lower case directly after it: the "next source" deviation hits them
+    "0x4EFE356BEDeCC817cb89B4E9b796dB8bC188DC59\0",
     "0x4efe356bedecc817cb89b4e9b796db8bc188dc59",
     "0xSender2",
     "",
